@@ -14,7 +14,7 @@
 (*   <<"CONSUMED", lines, "FAILS", n, ...>>                                *)
 (* is printed when every line has been consumed.                           *)
 (***************************************************************************)
-EXTENDS Rfc1951, DeflateParams, DeflateContract, InflateContract, Checksums, CApi, DeflateLZRules, DeflateHuff, Json, IOUtils
+EXTENDS Rfc1951, DeflateParams, DeflateContract, InflateContract, Checksums, CApi, DeflateLZRules, DeflateLZBufRules, DeflateHuff, Json, IOUtils
 
 Rec == ndJsonDeserialize(IOEnv.TRACE)
 
@@ -190,8 +190,8 @@ EvComp ==
                \o If(okc /\ ip # 0 /\ HasF(e, "adler") /\ HasF(e, "zlib") /\ e.zlib =>
                        e.adler = newad, "compressor_adler_is_adler_of_consumed_input")
                \* the match finder's state read through the hook, judged by the rules of DeflateLZ.tla
-               \o (IF HasF(e, "lz") THEN StateRules(e.lz, 32768, e.lz.lamax) ELSE <<>>)
-     IN /\ Report(fails, IF HasF(e, "lz") THEN 14 ELSE 6)
+               \o (IF HasF(e, "lz") THEN StateRules(e.lz, 32768, e.lz.lamax) \o LzBufRule(e.lz, 65536) ELSE <<>>)
+     IN /\ Report(fails, IF HasF(e, "lz") THEN 16 ELSE 6)
         /\ dc' = [CompNext(dc, e) EXCEPT !.adler = newad]
   /\ l' = l + 1
   /\ Keep(<<acc, cs, ip, cid, ds, ss, cc, seen>>)
@@ -219,7 +219,7 @@ EvFlushpoint ==
 
 EvDefl ==
   /\ Is("defl")
-  /\ Report(DeflRules(dc, E) \o (IF HasF(E, "lz") THEN StateRules(E.lz, 32768, E.lz.lamax) ELSE <<>>),
+  /\ Report(DeflRules(dc, E) \o (IF HasF(E, "lz") THEN StateRules(E.lz, 32768, E.lz.lamax) \o LzBufRule(E.lz, 65536) ELSE <<>>),
             IF HasF(E, "lz") THEN 17 ELSE 9)
   /\ dc' = DeflNext(dc, E)
   /\ l' = l + 1
